@@ -102,6 +102,11 @@ type Sched struct {
 	WaitEarly  string
 	Forced     []int
 	Systematic bool
+	// MaxPreempt > 0 bounds the number of preemptions (switching away from a
+	// goroutine that could continue) in systematic mode: iterative context bounding.
+	MaxPreempt int
+	preempts   int
+	lastRole   string
 	Choices    [][2]int
 }
 
@@ -529,14 +534,34 @@ func (s *Sched) Run(expected int) {
 		}
 		var pick *gstate
 		if s.Systematic {
+			// the goroutine that ran last comes first: taking it is "no preemption"
+			last := -1
+			for i, g := range cands {
+				if g.role == s.lastRole {
+					last = i
+				}
+			}
+			if last > 0 {
+				g := cands[last]
+				copy(cands[1:last+1], cands[:last])
+				cands[0] = g
+				last = 0
+			}
+			allowed := len(cands)
+			if s.MaxPreempt > 0 && last == 0 && s.preempts >= s.MaxPreempt {
+				allowed = 1 // the preemption budget is used up: the running goroutine continues
+			}
 			k := 0
 			if len(s.Choices) < len(s.Forced) {
 				k = s.Forced[len(s.Choices)]
-				if k >= len(cands) {
-					k = len(cands) - 1
+				if k >= allowed {
+					k = allowed - 1
 				}
 			}
-			s.Choices = append(s.Choices, [2]int{len(cands), k})
+			if last == 0 && k > 0 {
+				s.preempts++
+			}
+			s.Choices = append(s.Choices, [2]int{allowed, k})
 			pick = cands[k]
 		} else if s.pct {
 			if s.changes[s.step] {
@@ -559,6 +584,7 @@ func (s *Sched) Run(expected int) {
 			pick = cands[s.rng.Intn(len(cands))]
 		}
 		s.step++
+		s.lastRole = pick.role
 		s.Trace = append(s.Trace, pick.role+":"+kindName(pick.kind))
 		switch pick.kind {
 		case col.VerifLockClose:
